@@ -199,6 +199,24 @@ func VerifC12Trees() {
 	}
 }
 
+// VerifC12CallOperands: an operand that hides a call inside an index, slice bound, array literal
+// or unary operator (a[f(x)], s[k:f(x)], #s[k:f(x)], [k, f(x)] ...) next to a compound operand whose
+// partial result is live during the call, against the same computation through a temporary.
+func VerifC12CallOperands() {
+	t := NewTwin()
+	g := t.G
+	mid := g.DeepMid()
+	vrt.Note("e", Src(mid))
+	other := bin(g.op(), node.Int(vrt.Int("lit")), node.Int(vrt.Int("lit")))
+	op := g.op()
+	tmp := asg("t", mid)
+	if vrt.Bool("e-on-the-right") {
+		t.Compare(bin(op, other, mid), true, blk(tmp, bin(op, other, nm("t"))), true, "call-in-right-operand")
+	} else {
+		t.Compare(bin(op, mid, other), true, blk(tmp, bin(op, nm("t"), other)), true, "call-in-left-operand")
+	}
+}
+
 // VerifC12Increment: x = x + 1, x = 1 + x and t = x; x = t + 1 agree for x of any kind, at top
 // level (global) and inside a function (local).
 func VerifC12Increment() {
@@ -206,7 +224,11 @@ func VerifC12Increment() {
 	g := t.G
 	x := g.poly(0)
 	_ = x
-	one := node.Int(1)
+	// the added literal is any int or float literal (the compiler has a shortcut for some of them)
+	var one node.Type = node.Int(vrt.Int("addend"))
+	if vrt.Bool("float-addend") {
+		one = node.Float(math.Float64frombits(vrt.Uint64("addend.bits")))
+	}
 	forms := [...]node.Type{
 		asg("p0", bin("+", nm("p0"), one)),
 		asg("p0", bin("+", one, nm("p0"))),
